@@ -12,9 +12,14 @@ import (
 
 	"github.com/plgd-dev/go-coap/v3/dtls"
 	"github.com/plgd-dev/go-coap/v3/message"
+	"github.com/plgd-dev/go-coap/v3/message/codes"
 	"github.com/plgd-dev/go-coap/v3/message/pool"
+	"github.com/plgd-dev/go-coap/v3/mux"
+	"github.com/plgd-dev/go-coap/v3/options"
+	udpclient "github.com/plgd-dev/go-coap/v3/udp/client"
 
 	"verifharness/netenv"
+	"verifharness/ref"
 	"verifharness/sim"
 	"verifharness/vr"
 )
@@ -176,5 +181,123 @@ func brokenAtSetup(rec *vr.Rec, reps int) {
 			rec.Violation("C09/tcp/broken-at-setup/request-succeeds-on-closed-connection", "", c)
 		}
 		rec.Count("broken_at_setup_closed_cleanly", 1)
+	}
+}
+
+type ctxKey struct{ name string }
+
+// serverPeerWithContextValue: on a udp server the connection to a peer is the server's own object, and applications
+// decorate it: OnNewConn stores values in its context (SetContextValue) and registers on-close callbacks. Closing such a
+// connection - by the application, or with the server - must do what closing any connection does: run every callback
+// exactly once, complete the done signal, and let the same remote address be served again afterwards.
+func serverPeerWithContextValue(rec *vr.Rec, reps int) {
+	for rep := 0; rep < reps; rep++ {
+		values := rep % 3 // how many values the application stores
+		how := []string{"closed-by-application", "server-stopped"}[(rep/3)%2]
+		c := map[string]any{"scenario": "udp server-side peer connection decorated with context values", "values_set": values, "ended_by": how}
+		var mu sync.Mutex
+		var conns []*udpclient.Conn
+		var ran atomic.Int32
+		r := mux.NewRouter()
+		_ = r.Handle("/a", mux.HandlerFunc(func(w mux.ResponseWriter, m *mux.Message) {
+			_ = w.SetResponse(codes.Content, message.TextPlain, bytes.NewReader([]byte("ok")))
+		}))
+		so := netenv.ServerOpts{Router: r}
+		// (a udp server reaps closed peer connections with its housekeeping: let that run every 40 ms, not every 4 s)
+		so.Udp = append(so.Udp, options.WithPeriodicRunner(func(f func(now time.Time) bool) {
+			go func() {
+				for f(time.Now()) {
+					time.Sleep(40 * time.Millisecond)
+				}
+			}()
+		}), options.WithOnNewConn(func(cc *udpclient.Conn) {
+			for k := 0; k < values; k++ {
+				cc.SetContextValue(ctxKey{fmt.Sprintf("k%d", k)}, k)
+			}
+			cc.AddOnClose(func() { ran.Add(1) })
+			mu.Lock()
+			conns = append(conns, cc)
+			mu.Unlock()
+		}))
+		srv, err := netenv.Start("udp", so)
+		if err != nil {
+			rec.Inconclusive("server peer with context value: " + err.Error())
+			return
+		}
+		pc, derr := net.Dial("udp4", srv.Addr)
+		if derr != nil {
+			srv.Stop()
+			continue
+		}
+		ask := func(mid uint16) bool {
+			_, _ = pc.Write(ref.EncodeUDP(ref.Msg{Type: 0, Code: 1, MID: mid, Token: []byte{0x09, byte(mid)}, Opts: []ref.Opt{{ID: 11, Val: []byte("a")}}}))
+			buf := make([]byte, 256)
+			_ = pc.SetReadDeadline(time.Now().Add(2 * time.Second))
+			n, rerr := pc.Read(buf)
+			if rerr != nil {
+				return false
+			}
+			m, perr := ref.ParseUDP(buf[:n])
+			return perr == nil && m.Code == 0x45
+		}
+		rec.Eval(fmt.Sprintf("server-peer-ctx-value|%d|%s", values, how))
+		rec.Count("server_peer_context_value_cases", 1)
+		if !ask(10) {
+			rec.Inconclusive("server peer with context value: first request not answered")
+			_ = pc.Close()
+			srv.Stop()
+			continue
+		}
+		mu.Lock()
+		var cc *udpclient.Conn
+		if len(conns) > 0 {
+			cc = conns[0]
+		}
+		mu.Unlock()
+		if cc == nil {
+			rec.Inconclusive("server peer with context value: OnNewConn not called")
+			_ = pc.Close()
+			srv.Stop()
+			continue
+		}
+		if how == "closed-by-application" {
+			var wg sync.WaitGroup
+			for k := 0; k < 3; k++ {
+				wg.Add(1)
+				go func() { defer wg.Done(); _ = cc.Close() }()
+			}
+			wg.Wait()
+		} else {
+			srv.Stop()
+		}
+		bad := false
+		select {
+		case <-cc.Done():
+		case <-time.After(watchdog):
+			rec.Violation("C09/udp-server/peer-connection/done-not-signalled", fmt.Sprintf("the connection was %s; its done signal had not completed %v later (on-close callbacks run: %d of 1)", how, watchdog, ran.Load()), c)
+			bad = true
+		}
+		if !bad {
+			time.Sleep(300 * time.Microsecond)
+			if n := ran.Load(); n != 1 {
+				rec.Violation("C09/udp-server/peer-connection/on-close-callbacks", fmt.Sprintf("one callback registered, %d invocations after the connection was %s", n, how), c)
+				bad = true
+			}
+		}
+		if !bad && how == "closed-by-application" {
+			if !ask(11) {
+				rec.Violation("C09/udp-server/peer-connection/remote-not-served-after-close", "the application closed the connection to a peer; a new request from the same remote address got no answer (the closed connection is still in the server's table)", c)
+				bad = true
+			}
+		}
+		if !bad {
+			rec.Count("server_peer_connections_closed_cleanly", 1)
+		}
+		_ = pc.Close()
+		srv.Stop()
+		select {
+		case <-srv.Served:
+		case <-time.After(10 * time.Second):
+		}
 	}
 }
